@@ -168,13 +168,14 @@ class TokenTree:
         """
         if up_to:
             # End specified, move back to the root
-            out = up_to.get_plaintext_signed()
+            path = [up_to]
             next_token = up_to.previous_token_hash
             while next_token in self.elements:
                 token = self.elements[next_token]
-                out += token.get_plaintext_signed()
+                path.append(token)
                 next_token = token.previous_token_hash
-            return out
+            # Emit the root first: whoever loads this never has to park tokens in its (bounded) waiting area.
+            return b"".join(token.get_plaintext_signed() for token in reversed(path))
         # Do the full tree dump.
         return b"".join(token.get_plaintext_signed() for token in self.elements.values())
 
